@@ -23,7 +23,7 @@ UNIT = dict(
             ("sub", "R6-closure-call", r"\bf\(&(\w+), &error\)", r"f.vx_call(&\1, &error, Tracked(tr))", 1),
             ("wrapcalls", "R6-closure-call", r"\bbackup", "backup.vx_call({args}, Tracked(tr))", 1),
             # the predicate called in an expanded `match` instead of through Option::map (optional)
-            ("sub", "R6-closure-call", r"Some\((\w+)\) => \1\(&error\)", r"Some(\1) => \1.vx_call(&error)", -1),
+            ("sub", "R6-closure-call", r"(?<![\w.:])(?!f\()([a-z_]\w*)\(&error\)", r"\1.vx_call(&error)", -1),
             ("sub", "R6-closure-call", r"\btransform\(error\)", "transform.vx_call(error, Tracked(tr))", 1),
             ("addarg", ["call"], TR, 1),
         ]),
